@@ -16,6 +16,7 @@ import (
 	"math/rand"
 	"net/http"
 	"net/http/httptest"
+	"net/url"
 	"os"
 	"runtime"
 	"strings"
@@ -195,6 +196,45 @@ func concC19(rng *rand.Rand, rounds int, res *concResult) {
 		g := 4 + rng.Intn(9)
 		per := 50 + rng.Intn(200)
 		desc := fmt.Sprintf("targets=%d goroutines=%d calls/goroutine=%d", n, g, per)
+		if it%5 == 4 {
+			// (c) overlapping requests through the proxy middleware itself: one target refuses connections, one answers;
+			// with one retry every request must be relayed from the live one, with its own path and its own body
+			live := httptest.NewServer(http.HandlerFunc(func(w http.ResponseWriter, r *http.Request) {
+				b, _ := io.ReadAll(r.Body)
+				w.Header().Set("X-Saw-Path", r.URL.Path)
+				w.WriteHeader(http.StatusCreated)
+				w.Write(append([]byte("echo:"), b...))
+			}))
+			deadSrv := httptest.NewServer(http.HandlerFunc(func(http.ResponseWriter, *http.Request) {}))
+			du, _ := url.Parse(deadSrv.URL)
+			deadSrv.Close()
+			lu, _ := url.Parse(live.URL)
+			pe := echo.New()
+			pe.Logger.SetOutput(io.Discard)
+			pe.Use(middleware.ProxyWithConfig(middleware.ProxyConfig{RetryCount: 1,
+				Balancer: middleware.NewRoundRobinBalancer([]*middleware.ProxyTarget{{Name: "dead", URL: du}, {Name: "live", URL: lu}})}))
+			var bad atomic.Value
+			pg, pper := 4+rng.Intn(5), 10+rng.Intn(15)
+			parallel(res, pg, "C19 proxy "+desc, func(k int) {
+				for j := 0; j < pper; j++ {
+					id := fmt.Sprintf("%d-%d", k, j)
+					req := httptest.NewRequest(http.MethodPost, "/p/"+id, strings.NewReader("body-"+id))
+					rec := httptest.NewRecorder()
+					pe.ServeHTTP(rec, req)
+					if rec.Code != http.StatusCreated || rec.Body.String() != "echo:body-"+id || rec.Header().Get("X-Saw-Path") != "/p/"+id {
+						bad.Store(fmt.Sprintf("request %s (one dead and one live target, RetryCount 1) got status %d body %q upstream-path %q", id, rec.Code, rec.Body.String(), rec.Header().Get("X-Saw-Path")))
+					}
+				}
+			})
+			live.Close()
+			if v := bad.Load(); v != nil {
+				res.fail("C19 goroutines=%d: %v", pg, v)
+			}
+			res.Dist["c19_proxy_overlapping"]++
+			res.Ops += pg * pper
+			res.Scenarios++
+			continue
+		}
 		if rng.Intn(2) == 0 {
 			// (a) fixed list: all calls together are one cyclic sequence, so per-target counts differ by at most one
 			var mu sync.Mutex
